@@ -58,6 +58,8 @@ Mutations caught (private copy, VF_REPO=/tmp/wt-orm3):
     "load=False emitted SQL: SELECT ..."
  M8 relationships.py merge: load=False collection filled with events ->
     "load=False left Session.dirty non-empty"
+ M9 relationships.py merge (scalar branch): a None many-to-one is not copied ->
+    "C.p is None on the source, <P p1> on the result"
  (not observable, equivalent here: load=False using impl.set / dropping the
  final _commit_all - the other one masks it)
 """
